@@ -261,6 +261,9 @@ def worker_chunk(args):
             gen.reset_state()
 
             for scn in mod.sweep_scenarios(task):
+                # (the watchdog guards one scenario, not the whole task: a
+                # full grid over a large file legitimately takes longer)
+                faulthandler.dump_traceback_later(600, exit=True)
                 scn.update({'property': pid, 'tier': tier,
                             'master_seed': master, 'class': task['name']})
                 out, err = execute_guarded(mod, scn, L)
@@ -280,6 +283,8 @@ def worker_chunk(args):
         return agg
 
     for idx in range(start, start + count):
+        faulthandler.dump_traceback_later(600, exit=True)
+
         try:
             scn = make_scenario(mod, tier, master, idx)
         except Exception:
